@@ -23,7 +23,7 @@ NPROC = int(os.environ.get("VERIF_WORKERS", "8"))
 def numba_cache_dir() -> Path:
     """Cache directory keyed by the content of every porepy source that mentions numba, so
     an edited kernel (or an edited callee of a cached kernel) is never served stale."""
-    h = hashlib.sha1()
+    h = hashlib.sha1(str(REPO).encode())  # numba indexes its cache by file path
     src = REPO / "src" / "porepy"
     for p in sorted(src.rglob("*.py")):
         try:
